@@ -115,6 +115,8 @@ func (f *fakeRegion) generate() ([]byte, []byte, error) {
 func (f *fakeRegion) encrypt(plain []byte) ([]byte, error) {
 	f.s.Point(simrt.KSeam, "kms.encrypt")
 	*f.log = append(*f.log, "enc:"+f.region)
+	// the request buffer holds the plaintext data key as well: it is retained like the ones handed out
+	*f.handed = append(*f.handed, plain)
 	if f.failEnc {
 		return nil, errors.New("KMSInternalException")
 	}
